@@ -542,6 +542,43 @@ pub fn run_deep(api: &str, shape: &str, depth: usize) -> i32 {
                 Err(_) => 3,
             }
         }
+        "stack" => {
+            // how much stack the scanner and parser use for this nesting: the characters are served by an iterator
+            // that records the address of one of its locals each time it is called (the deepest point of every call
+            // chain that reads input); printed as `STACK <bytes>`
+            struct Probe<'a> {
+                it: std::str::Chars<'a>,
+                lowest: &'a std::cell::Cell<usize>,
+            }
+            impl<'a> Iterator for Probe<'a> {
+                type Item = char;
+                #[inline(never)]
+                fn next(&mut self) -> Option<char> {
+                    let here = 0u8;
+                    let a = std::hint::black_box(&here) as *const u8 as usize;
+                    if a < self.lowest.get() {
+                        self.lowest.set(a);
+                    }
+                    self.it.next()
+                }
+            }
+            let top = 0u8;
+            let top_addr = std::hint::black_box(&top) as *const u8 as usize;
+            let lowest = std::cell::Cell::new(top_addr);
+            let mut ok = true;
+            for r in saphyr_parser::Parser::new_from_iter(Probe { it: text.chars(), lowest: &lowest }) {
+                if r.is_err() {
+                    ok = false;
+                    break;
+                }
+            }
+            println!("STACK {}", top_addr - lowest.get());
+            if ok {
+                0
+            } else {
+                3
+            }
+        }
         "loaddrop" => match Yaml::load_from_str(&text) {
             Ok(d) => {
                 drop(d);
